@@ -23,6 +23,8 @@ const HOSTILE: &[&str] = &[
     "tab\there", "quote\"inside", "back\\slash", "slash/es", "ctl\u{1}\u{1f}x", "del\u{7f}", "nb\u{a0}sp", "ls\u{2028}ps\u{2029}",
     "é ü ñ", "e\u{301} combining", "日本語", "😀 emoji 🧪", "mixed \t \" \\ / \u{8} \u{c} end", "\r carriage", "{braces} [brackets] #hash",
     "trailing backslash\\", "\\u0041 literal", "a\u{0}b",
+    // text that starts with the characters the story format itself uses as markers
+    "^_^ caret first", "^^ two carets", "-> arrow first", "ev", "done", "^->", "#tag?", "L^ist", "void", "<> glue?",
 ];
 
 fn inject(v: &mut J, t: &mut Tape, budget: &mut usize) {
